@@ -1,18 +1,34 @@
 #!/usr/bin/env python3
-"""MANIFEST.setup_cmd: pre-build the library variants and harnesses from files on disk (offline)."""
+"""MANIFEST.setup_cmd: pre-build every library variant and harness the checks use, from files on disk (offline).
+The checks rebuild by content hash anyway; this only warms the cache so that the first quick run is not dominated by compiling."""
 import os
 import sys
+import time
 
-sys.path.insert(0, os.path.dirname(os.path.abspath(__file__)))
+HERE = os.path.dirname(os.path.abspath(__file__))
+sys.path.insert(0, HERE)
+sys.path.insert(0, os.path.join(HERE, "reflect"))
 import build
+import gen_reflect
+
+PLAIN = [("h_session", "sched"), ("h_session", "sched-tsan"), ("h_session", "sched-asan"), ("h_queue", "sched"), ("h_queue", "sched-asan"),
+         ("h_seq_stream", "plain"), ("h_seq_stream", "plain-asan"), ("h_seq_queue", "plain"), ("h_seq_queue", "plain-asan"),
+         ("h_resync", "sched-asan"), ("h_hist", "sched"), ("h_hist", "sched-asan")]
+REFL = [("h_codec", "plain"), ("h_codec", "plain-asan"), ("h_codec", "plain-init0"), ("h_codec", "plain-initpat"),
+        ("h_file", "sched"), ("h_fault", "sched-asan")]
 
 
 def main():
+    t0 = time.time()
     os.makedirs(os.path.join(build.VERIF, "evidence"), exist_ok=True)
-    for v in ("sched", "plain"):
-        with build._Lock():
-            build.build_lib(v)
-    print("setup ok")
+    p, _ = gen_reflect.generate()
+    for name, variant in PLAIN:
+        build.build_harness(name, [os.path.join(build.VERIF, "harness", name + ".cpp")], variant)
+        print("built", name, variant, "%.0fs" % (time.time() - t0), flush=True)
+    for name, variant in REFL:
+        build.build_harness(name, [os.path.join(build.VERIF, "harness", name + ".cpp")], variant, gen_deps=[p])
+        print("built", name, variant, "%.0fs" % (time.time() - t0), flush=True)
+    print("setup ok in %.0f s" % (time.time() - t0))
 
 
 if __name__ == "__main__":
